@@ -93,6 +93,8 @@ def run_variant(w, sim, proj, variant):
     prog, args, cwd = variant_command(form, w, proj)
     env = R.base_env(w, proj.conf_env)
     env.pop('BFG9000', None)
+    if sim.cfg.get('msvc'):
+        env.update({'CC': 'cl', 'CXX': 'cl'})
     env.update(noise)
     r = R.run_bfg(w, args, env=env, cwd=cwd, prog=prog, mode='fresh',
                   hashseed=hashseed)
@@ -116,9 +118,9 @@ def run_case(seed, root, params=None):
     else:
         proj = G.RegenGen(rng, backend).generate()
     cfg = {'clock_mode': rng.choice(['strict', 'coarse']), 'bufsize': 4096,
-           'seed': seed}
+           'seed': seed, 'msvc': rng.random() < 0.25}
     w = W.World(root)
-    R.install_stubs(w, config=cfg)
+    R.install_stubs(w, config=cfg, msvc=cfg['msvc'])
     proj.materialise(w)
     sim = S.Sim(w, proj, cfg)
     K = params.get('K', 5)
@@ -238,7 +240,9 @@ def summarise(case):
         'seed': case['seed'],
         'violations': [v.to_json() for v in case['violations']],
         'stats': {'configure_runs': len(case['trace']),
-                  'backend.' + case['backend']: 1},
+                  'backend.' + case['backend']: 1,
+                  'toolchain.' + ('msvc' if case['cfg'].get('msvc')
+                                  else 'gcc'): 1},
         'nontrivial': nontrivial,
         'shape': hashlib.sha256(shape.encode()).hexdigest()[:16],
         'digest': hashlib.sha256(repr(case['trace']).encode())
@@ -255,7 +259,7 @@ def summarise(case):
 def replay(rep, root):
     proj = G.Project.from_json(rep['project'])
     w = W.World(root)
-    R.install_stubs(w, config=rep['cfg'])
+    R.install_stubs(w, config=rep['cfg'], msvc=rep['cfg'].get('msvc'))
     proj.materialise(w)
     sim = S.Sim(w, proj, rep['cfg'])
     out = []
